@@ -709,7 +709,13 @@ func equivalentCheckConfigInV2(
 	if err != nil {
 		return nil, err
 	}
-	deprecations, err := bufcheck.GetDeprecatedIDToReplacementIDs(expectedRules)
+	// The configured rules never contain deprecated rules, so the deprecations
+	// must come from all rules of the version being migrated from.
+	allRules, err := client.AllRules(ctx, ruleType, checkConfig.FileVersion())
+	if err != nil {
+		return nil, err
+	}
+	deprecations, err := bufcheck.GetDeprecatedIDToReplacementIDs(allRules)
 	if err != nil {
 		return nil, err
 	}
